@@ -4,6 +4,7 @@ import Vivid.Engine.Ring
 import Vivid.Engine.Mailbox
 import Vivid.Engine.View
 import Vivid.Engine.Codec
+import Vivid.Engine.ActorSys
 
 open Vivid.Engine
 
@@ -12,7 +13,8 @@ def engines : List (String × Engine) := [
   ("ring", RingEngine.engine),
   ("mailbox", MailboxEngine.engine),
   ("view", ViewEngine.engine),
-  ("codec", CodecEngine.engine)
+  ("codec", CodecEngine.engine),
+  ("actorsys", ActorSysEngine.engine)
 ]
 
 partial def loop (h : IO.FS.Stream) (out : IO.FS.Stream) (e : Engine) (s : e.σ) : IO Unit := do
